@@ -33,6 +33,7 @@ const (
 	opSnipe             // wait (bounded) for another holder's f to return, then release that holder
 	opTRNoHolder        // TemporarilyRelease on a context without holder
 	opTRPanic           // like opTR, but f panics after Sub; the goroutine recovers and carries on in its critical section
+	opInner             // attach a second limiter of size A on THIS holder's returned context (With on a context that carries a holder of another limiter); A+1 goroutines Acquire on it, run Sub, release
 	opChild             // start a goroutine that calls Acquire on THIS holder's returned context (nested Acquire), runs Sub, releases
 )
 
@@ -75,6 +76,8 @@ func opsString(ops []op) string {
 			fmt.Fprintf(&sb, "N%d", o.A)
 		case opChild:
 			sb.WriteString("C{" + opsString(o.Sub) + "}")
+		case opInner:
+			fmt.Fprintf(&sb, "L%d{%s}", o.A, opsString(o.Sub))
 		}
 	}
 	return sb.String()
@@ -128,7 +131,11 @@ func genOps(r *rand.Rand, n, depth int, simple, child bool) []op {
 					sub = append(sub, op{K: opTR, Sub: genOps(r, r.Intn(3), 1, simple, false)})
 				}
 				sub = append(sub, genOps(r, r.Intn(3), 0, simple, false)...)
-				ops = append(ops, op{K: opChild, Sub: sub})
+				if r.Intn(3) == 0 {
+					ops = append(ops, op{K: opInner, A: 1 + r.Intn(2), Sub: genOps(r, r.Intn(3), 0, simple, false)})
+				} else {
+					ops = append(ops, op{K: opChild, Sub: sub})
+				}
 			}
 		}
 	}
@@ -220,10 +227,30 @@ func (e *env) runOps(a *actor, r *rand.Rand, h *holder, ops []op, inTR bool) {
 			e.wg.Add(1)
 			go func() {
 				defer e.wg.Done()
-				c := e.acquire(ca, h.ctx, ctxNormal, nil)
+				c := e.acquireLim(ca, h.ctx, ctxNormal, nil, h.lim)
 				e.runOps(ca, cr, c, sub, false)
 				e.release(ca, c)
 			}()
+		case opInner:
+			if h.kind != ctxNormal || h.lim != 0 {
+				gosched(1)
+				break
+			}
+			e.count("op:inner_limiter_on_holder_context")
+			inner := concurrencylimiter.With(h.ctx, o.A)
+			lim := e.newLimiter(o.A)
+			for c := 0; c <= o.A; c++ {
+				ca := e.newActor()
+				cr := rand.New(rand.NewSource(r.Int63()))
+				sub := o.Sub
+				e.wg.Add(1)
+				go func() {
+					defer e.wg.Done()
+					ih := e.acquireLim(ca, inner, ctxNormal, nil, lim)
+					e.runOps(ca, cr, ih, sub, false)
+					e.release(ca, ih)
+				}()
+			}
 		case opTRNoHolder:
 			e.count("op:tr_without_holder")
 			ctx := e.base
@@ -539,7 +566,7 @@ func randomScenario(run *vlib.Run, i int, agg *vlib.HitAgg, simple bool) (*env, 
 		ss = append(ss, fmt.Sprintf("g%d: %s", k, s))
 	}
 	desc["scripts"] = ss
-	desc["script_format"] = "A:<ctx>[ops]R<k>[h]: Acquire, ops, k release calls (h: none if a call of the release func by anyone has already begun); wK yields, T(..) TemporarilyRelease, P(..) TemporarilyRelease whose f panics (recovered), R own release, F foreign release, S foreign release aimed at a returning TemporarilyRelease, N TemporarilyRelease without holder, C{..} another goroutine calls Acquire on this holder's returned context (nested Acquire), runs the ops, releases"
+	desc["script_format"] = "A:<ctx>[ops]R<k>[h]: Acquire, ops, k release calls (h: none if a call of the release func by anyone has already begun); wK yields, T(..) TemporarilyRelease, P(..) TemporarilyRelease whose f panics (recovered), R own release, F foreign release, S foreign release aimed at a returning TemporarilyRelease, N TemporarilyRelease without holder, L<m>{..} With(this holder's context, m) and m+1 goroutines Acquire on it, run the ops, release; C{..} another goroutine calls Acquire on this holder's returned context (nested Acquire), runs the ops, releases"
 
 	y.Install()
 	defer vlib.Uninstall()
@@ -1015,6 +1042,164 @@ func faultScenario(run *vlib.Run, i, k int, agg *vlib.HitAgg) {
 	}
 }
 
+// limiterScenario: nested limiters. P acquires on the outer limiter (size n1);
+// a second limiter of size m is attached with With on P's RETURNED context
+// (which carries P's holder); m goroutines Acquire on that inner context and
+// must get in even when the outer limiter is full (the inner one is idle); an
+// (m+1)-th must wait for an inner release even when the outer limiter has
+// room. Variants: outer limiter filled or not, P released before the inner
+// Acquires (stale holder on the context) or still holding.
+func limiterScenario(run *vlib.Run, i, k int, agg *vlib.HitAgg) {
+	n1 := 1 + k%3
+	m := 1 + (k/3)%3
+	outerFull := (k/9)%2 == 1
+	stale := (k/18)%2 == 1
+	intensity := []int{0, 25}[(k/36)%2]
+	e := newEnv(n1)
+	y := vlib.NewYielder(run.Seed()*32452843+int64(i), intensity)
+	e.y = y
+	y.Install()
+	defer vlib.Uninstall()
+	defer agg.Add(y)
+	desc := map[string]interface{}{"kind": "nested-limiters", "outer_size": n1, "inner_size": m, "outer_filled": outerFull, "parent_released_before_inner_acquires": stale, "yield_intensity": intensity,
+		"scenario": "base := With(bg, n1); ctxP, relP := Acquire(base); inner := With(ctxP, m); [relP()]; [fill the outer limiter]; m goroutines Acquire(inner) must all get in; an (m+1)-th only after one of them released"}
+	pa := e.newActor()
+	P := e.acquire(pa, e.base, ctxNormal, nil)
+	inner := concurrencylimiter.With(P.ctx, m)
+	lim := e.newLimiter(m)
+	if stale {
+		e.release(pa, P)
+	}
+	fail := func(o vlib.Outcome, what string) {
+		e.hang(run, i, o, what, desc)
+		run.Case("limiters hang", false)
+	}
+	var wg sync.WaitGroup
+	relOuter := make(chan struct{})
+	if outerFull {
+		fill := n1 - 1
+		if stale {
+			fill = n1
+		}
+		var cnt int32
+		full := make(chan struct{})
+		if fill == 0 {
+			close(full)
+		}
+		for c := 0; c < fill; c++ {
+			oa := e.newActor()
+			wg.Add(1)
+			go func() {
+				defer wg.Done()
+				h := e.acquire(oa, e.base, ctxNormal, nil)
+				if int(atomic.AddInt32(&cnt, 1)) == fill {
+					close(full)
+				}
+				<-relOuter
+				e.release(oa, h)
+			}()
+		}
+		if o := e.await(full); o != vlib.Reached {
+			fail(o, "filling the outer limiter")
+			return
+		}
+	}
+	// m inner holders
+	relInner := make([]chan struct{}, m)
+	var got int32
+	allIn := make(chan struct{})
+	for c := 0; c < m; c++ {
+		relInner[c] = make(chan struct{})
+		ia := e.newActor()
+		wg.Add(1)
+		go func(c int) {
+			defer wg.Done()
+			h := e.acquireLim(ia, inner, ctxNormal, nil, lim)
+			if int(atomic.AddInt32(&got, 1)) == m {
+				close(allIn)
+			}
+			<-relInner[c]
+			e.release(ia, h)
+		}(c)
+	}
+	if o := e.await(allIn); o != vlib.Reached {
+		fail(o, fmt.Sprintf("Acquire of %d goroutines on the idle inner limiter of size %d (outer limiter of size %d %s)", m, m, n1, map[bool]string{true: "is full", false: "has room"}[outerFull]))
+		return
+	}
+	extra := make(chan struct{})
+	relExtra := make(chan struct{})
+	xa := e.newActor()
+	wg.Add(1)
+	go func() {
+		defer wg.Done()
+		h := e.acquireLim(xa, inner, ctxNormal, nil, lim)
+		close(extra)
+		<-relExtra
+		e.release(xa, h)
+	}()
+	for c := 0; c < 40; c++ {
+		select {
+		case <-extra:
+			c = 40
+		default:
+			gosched(1)
+		}
+	}
+	close(relInner[0])
+	if o := e.await(extra); o != vlib.Reached {
+		fail(o, "(m+1)-th Acquire on the inner limiter after one inner holder released")
+		return
+	}
+	for c := 1; c < m; c++ {
+		close(relInner[c])
+	}
+	close(relExtra)
+	close(relOuter)
+	if !stale {
+		e.release(pa, P)
+	}
+	done := make(chan struct{})
+	go func() { wg.Wait(); close(done) }()
+	if o := e.await(done); o != vlib.Reached {
+		fail(o, "final releases")
+		return
+	}
+	// the inner limiter has its full capacity again
+	again := make(chan struct{})
+	ga := e.newActor()
+	go func() {
+		var hs []*holder
+		for c := 0; c < m; c++ {
+			hs = append(hs, e.acquireLim(ga, inner, ctxNormal, nil, lim))
+		}
+		for _, h := range hs {
+			e.release(ga, h)
+		}
+		close(again)
+	}()
+	if o := e.await(again); o != vlib.Reached {
+		fail(o, "m fresh Acquires on the inner limiter after all its holders released")
+		return
+	}
+	if !e.epilogue(run, i, desc) {
+		run.Case("limiters hang", false)
+		return
+	}
+	ov := e.verdict(run, i, desc)
+	evs := e.merged()
+	sh, _, feats := e.shape(evs, ov)
+	run.Case(fmt.Sprintf("limiters n1=%d m=%d full=%v stale=%v %s", n1, m, outerFull, stale, sh), true)
+	run.Count("nested_limiter_cases", 1)
+	for f, c := range feats {
+		run.Count("observed:"+f, c)
+	}
+	e.mu.Lock()
+	for f, c := range e.feat {
+		run.Count(f, c)
+	}
+	e.mu.Unlock()
+}
+
 // ---------------------------------------------------------------- porcupine
 
 type semIn struct {
@@ -1134,7 +1319,7 @@ func porcupineCheck(run *vlib.Run, i int, e *env, evs []event, maxOps int) {
 	normal := map[int]bool{}
 	e.mu.Lock()
 	for _, h := range e.holders {
-		if h.kind == ctxNormal {
+		if h.kind == ctxNormal && h.lim == 0 {
 			normal[h.id] = true
 		}
 	}
@@ -1178,7 +1363,8 @@ func TestCheck(t *testing.T) {
 	run.Rule("three seeded families on the real limiter: (1) targeted: n in 1..4, H1 inside TemporarilyRelease, n others hold, a foreign release of H1 is injected at hook limiter.block.reacquiring and an extra Acquire is issued (with/without an Acquire already parked, with/without random yields); " +
 		"(1b) nested Acquire: n in 2..4, parent P holds and keeps running, 1..2 child goroutines Acquire on P's returned context and wait inside (nested) TemporarilyRelease, n others Acquire, P releases only after n-1 of them hold; " +
 		"(1c) fault inside f: n in 1..3, A acquires and calls TemporarilyRelease (optionally nested) with an f that panics (recovered) or calls runtime.Goexit (deferred function carries on), A stays in its critical section, n-1 others hold, B's Acquire must wait for A's release; " +
-		"(2) random: n in 1..4, 2..24 goroutines, each 1..3 Acquire segments on a limiter / pre-cancelled / limiter-less / concurrently-cancelled context with bodies of nested TemporarilyRelease (depth<=3, one in five with an f that panics and is recovered), early and double release, holders released exactly once by another goroutine (the owner adds no call once one has begun), release inside own TemporarilyRelease, release of other goroutines' holders (also aimed at a returning TemporarilyRelease), child goroutines that Acquire on the running parent's returned context and mostly wait inside TemporarilyRelease, TemporarilyRelease without holder, random hook yields and an optional injected release at a limiter hook; every scenario ends with the capacity check (n fresh Acquires, Acquire on cancelled / limiter-less contexts while all tokens are held, again on a pre-cancelled and on a cancelled-while-waiting context with a live goroutine parked in Acquire, (n+1)-th Acquire only after a release); " +
+		"(1d) nested limiters: outer size 1..3, inner size 1..3 attached with With on the context returned by an Acquire on the outer one, outer filled or not, parent released first or not: the idle inner limiter admits its m, the (m+1)-th waits for an inner release, every limiter is checked against its own bound; " +
+		"(2) random: n in 1..4, 2..24 goroutines, each 1..3 Acquire segments on a limiter / pre-cancelled / limiter-less / concurrently-cancelled context with bodies of nested TemporarilyRelease (depth<=3, one in five with an f that panics and is recovered), early and double release, holders released exactly once by another goroutine (the owner adds no call once one has begun), release inside own TemporarilyRelease, release of other goroutines' holders (also aimed at a returning TemporarilyRelease), child goroutines that Acquire on the running parent's returned context and mostly wait inside TemporarilyRelease, a second limiter (size 1..2) attached on a holder's returned context with size+1 goroutines acquiring on it, TemporarilyRelease without holder, random hook yields and an optional injected release at a limiter hook; every scenario ends with the capacity check (n fresh Acquires, Acquire on cancelled / limiter-less contexts while all tokens are held, again on a pre-cancelled and on a cancelled-while-waiting context with a live goroutine parked in Acquire, (n+1)-th Acquire only after a release); " +
 		"(3) the targeted histories with n<=2 and short random histories (<=12 scripted operations plus the capacity check, n in 1..2, 2..4 goroutines) additionally checked with porcupine against a counting-semaphore model. " +
 		"Non-trivial = the limit was reached in the scripted part (observed overlap == n before the capacity check) and some holder had a TemporarilyRelease plus a foreign release or a release inside it; distinct = n, max overlap and the multiset of per-holder lifecycles (outermost TR enter/return, own/foreign release and whether it fell outside TR, inside f, or in the re-acquire window).")
 	run.Assume("holding spans are bracketed by ticks of one atomic counter taken after Acquire returned / before release is called / before TemporarilyRelease is entered / after it returned, so the monitor can only under-count")
@@ -1189,9 +1375,10 @@ func TestCheck(t *testing.T) {
 	nT := run.N(240, 4000)
 	nN := run.N(120, 3000)
 	nF := run.N(96, 2400)
-	nR := run.N(24000, 1600000)
+	nL := run.N(144, 2880)
+	nR := run.N(20000, 1600000)
 	nP := run.N(1500, 100000)
-	run.Each(nT+nN+nF+nR+nP, 1, func(i int) {
+	run.Each(nT+nN+nF+nL+nR+nP, 1, func(i int) {
 		if run.Violations() >= 6 {
 			// enough unclassified witnesses; hung scenarios leave parked goroutines
 			// behind and cost seconds each, so stop early
@@ -1206,7 +1393,9 @@ func TestCheck(t *testing.T) {
 			nestedScenario(run, i, i-nT, agg)
 		case i < nT+nN+nF:
 			faultScenario(run, i, i-nT-nN, agg)
-		case i < nT+nN+nF+nR:
+		case i < nT+nN+nF+nL:
+			limiterScenario(run, i, i-nT-nN-nF, agg)
+		case i < nT+nN+nF+nL+nR:
 			randomScenario(run, i, agg, false)
 		default:
 			porcupineScenario(run, i, agg)
